@@ -32,6 +32,8 @@ DTB = _np.dtype('bool')
 MODE = {'float': 'fp'}          # how a Python/numpy float meets a symbolic integer: 'fp' or 'xr'
 STATS = {'queries': 0, 'solver_s': 0.0, 'paths': 0, 'decisions': 0, 'unknown_branch': 0}
 DECIDE_TIMEOUT_MS = 20000
+OPT = {'optimistic': False,     # fork without asking the solver (infeasible paths are refuted by the final queries)
+       'lazy_bounds': False}    # index-in-bounds checks become recorded assertions instead of forks
 
 
 class Infeasible(BaseException):
@@ -101,10 +103,13 @@ def decide(term):
     if c.pos < len(c.decisions):
         val = c.decisions[c.pos][0]
     else:
-        rt = check([term], DECIDE_TIMEOUT_MS)
-        rf = check([z3.Not(term)], DECIDE_TIMEOUT_MS)
-        if 'unknown' in (rt, rf):
-            STATS['unknown_branch'] += 1
+        if OPT['optimistic']:
+            rt = rf = 'unknown'
+        else:
+            rt = check([term], DECIDE_TIMEOUT_MS)
+            rf = check([z3.Not(term)], DECIDE_TIMEOUT_MS)
+            if 'unknown' in (rt, rf):
+                STATS['unknown_branch'] += 1
         t = rt != 'unsat'
         f = rf != 'unsat'
         if t and f:
@@ -122,6 +127,14 @@ def decide(term):
     c.pos += 1
     c.pc.append(term if val else z3.Not(term))
     return val
+
+
+def lazy_assert(term, what):
+    """Record `term` as an assertion of the program under test (checked by the harness at the end against the
+    path condition as it was here) and continue under it."""
+    c = CTX
+    c.notes.setdefault('asserts', []).append((term, what, len(c.pc)))
+    c.pc.append(term)
 
 
 def assume(term):
